@@ -139,7 +139,10 @@ def parseScenario : List String → Option (Option Space)
     let n ← n.toNat?
     let pts := rest.filter (·.startsWith "p:")
     let ts := rest.filter (·.startsWith "t:")
-    if pts.length != n || pts.length + ts.length != rest.length then none else
+    -- optional `s:k`: the centroids are the integer points divided by k; connections do not depend on it
+    let ss := rest.filter (·.startsWith "s:")
+    if ss.length > 1 || !(ss.all fun t => ((t.drop 2).toString.toNat?).isSome) then none else
+    if pts.length != n || pts.length + ts.length + ss.length != rest.length then none else
     let _ ← pts.mapM (fun p => parseCoord (p.drop 2).toString)
     let tris ← ts.mapM (fun t => parseTri (t.drop 2).toString)
     if tris.all (fun (a, b, c) => a < n && b < n && c < n) then
